@@ -12,7 +12,8 @@ m=json.load(open('$d/meta.json'))
 cb=m.get('caught_by') or m['property']
 ps=re.findall(r'C\d\d',cb.split('not C')[0].split('; not')[0])
 print(' '.join(dict.fromkeys(ps)) or m['property'])")
-  R=$(/verif/tools/eval_seeded.sh $ID $PROPS 2>&1)
+  T=$(python3 -c "import json;print(json.load(open('$d/meta.json')).get('tier','quick'))")
+  R=$(TIER=$T /verif/tools/eval_seeded.sh $ID $PROPS 2>&1)
   V=$(echo "$R" | grep -c '^VALID=1')
   C=$(echo "$R" | grep -E '^check' | grep -c 'exit 1')
   N=$(echo "$R" | grep -cE '^check')
